@@ -237,10 +237,17 @@ fn seed_for(name: &str, seed: u64) -> Rng {
 
 pub fn run_op(def: &OpDef, program: &Program, full: bool, seed: u64) -> OpRun {
     let mut out = OpRun { def: def.clone(), cases: vec![], rows: vec![], error: None };
-    let runner = match SierraCasmRunner::new(program.clone(), None, Default::default(), None) {
-        Ok(r) => r,
-        Err(e) => {
+    let built = std::panic::catch_unwind(std::panic::AssertUnwindSafe(|| {
+        SierraCasmRunner::new(program.clone(), None, Default::default(), None)
+    }));
+    let runner = match built {
+        Ok(Ok(r)) => r,
+        Ok(Err(e)) => {
             out.error = Some(format!("runner: {e}"));
+            return out;
+        }
+        Err(_) => {
+            out.error = Some(format!("runner: COMPILER PANIC in sierra-to-casm @ {}", vcommon::last_panic_location()));
             return out;
         }
     };
